@@ -17,7 +17,10 @@ HEAD = 'a: int, b: int, d: int, c: bool'
 
 def result_type(expr: str) -> str:
 	n = ast.parse(expr, mode='eval').body
-	if isinstance(n, (ast.Compare, ast.BoolOp)) or (isinstance(n, ast.UnaryOp) and isinstance(n.op, ast.Not)):
+	if isinstance(n, ast.BoolOp):
+		# `x or y` yields one of its operands
+		return 'bool' if all(result_type(ast.unparse(v)) == 'bool' for v in n.values) else 'int'
+	if isinstance(n, ast.Compare) or (isinstance(n, ast.UnaryOp) and isinstance(n.op, ast.Not)):
 		return 'bool'
 	if isinstance(n, ast.IfExp):
 		return 'bool' if result_type(ast.unparse(n.body)) == 'bool' and result_type(ast.unparse(n.orelse)) == 'bool' else 'int'
@@ -65,6 +68,7 @@ def expression_shapes(tier: str, seed: int) -> list:
 	builtins = []
 	for o1, o2 in itertools.product(ARITH[:3] + CMP[:3], repeat=2):
 		builtins += [('builtin', f'abs(a {o1} b) {o2} d'), ('builtin', f'min(a, b) {o1} max(b {o2 if o2 in ARITH else "+"} d, a)'), ('builtin', f'int(c) {o1} int(a {o2} b)'), ('builtin', f'bool(a {o1} b) {o2} c')]
+	builtins += [('boolop-value', e) for e in ['a or b', 'a and b', '(a or b) + d', 'a or b or d', '(a and b) or d', 'c or a', '(a < b) or d', 'a - (b or 1)', 'abs(a or b)']]
 	builtins += [('builtin', e) for e in ['(a < b) is True', '(a < b) is not c', 'c is False or a == b', 'not (c is True)', 'int(a < b) + int(b < d) * 2', 'abs(-a) - abs(a)', 'min(a, max(b, d))', 'bool(a) and bool(b)', 'int(not c)']]
 	out += builtins
 	nested = []
@@ -150,6 +154,10 @@ LIST_TEMPLATES = [
 	'def {n}({h}) -> int:\n\tys = [a, b, 0]\n\tys[2] = a {0} b\n\tys[0] = ys[1]\n\treturn ys[0] + ys[2]\n',
 	'def {n}({h}) -> int:\n\tys: list[int] = []\n\ti = 0\n\twhile i < 3:\n\t\tys.append(i {0} a)\n\t\ti += 1\n\treturn ys[1] + len(ys)\n',
 	'def {n}({h}) -> int:\n\tys: list[int] = []\n\tfor x in xs:\n\t\tif x {1} a:\n\t\t\tys.append(x {0} b)\n\tt = 0\n\tfor y in ys:\n\t\tt += y\n\treturn t + len(ys)\n',
+	# fill idiom
+	'def {n}({h}) -> int:\n\tys = [a] * 3\n\tys[1] = b\n\treturn (ys[0] {0} ys[1]) - ys[2] + len(ys)\n',
+	'def {n}({h}) -> int:\n\tn = 2 if c else 3\n\tys: list[int] = [0] * n\n\tfor i in range(n):\n\t\tys[i] = i {0} a\n\treturn ys[n - 1] + len(ys)\n',
+	'def {n}({h}) -> int:\n\tys = [b] * (len(xs) + 1)\n\tt = 0\n\tfor y in ys:\n\t\tt = t {0} y\n\treturn t + len(ys)\n',
 	# comprehensions
 	'def {n}({h}) -> int:\n\tys = [x {0} a for x in xs]\n\tt = 0\n\tfor y in ys:\n\t\tt += y\n\treturn t\n',
 	'def {n}({h}) -> int:\n\tys = [x {0} a for x in xs if x {1} b]\n\treturn len(ys) + (ys[0] if len(ys) > 0 else 0)\n',
